@@ -17,12 +17,27 @@ for l in log:
     p = subprocess.run(['git', '-C', '/repo', 'apply', '--check', '-'], input=patch, text=True, capture_output=True)
     slug = re.sub(r'[^a-z0-9]+', '-', subj[5:].lower()).strip('-')[:48]
     if p.returncode != 0:
-        print('skip (no longer applies):', subj)
-        continue
+        # later fixes touched the same lines: revert in a scratch worktree, preferring the reverted side
+        # of conflicting hunks, and keep the result only if it still builds
+        import tempfile
+        scratch = tempfile.mkdtemp(prefix='lvrev-', dir='/tmp'); os.rmdir(scratch)
+        env = dict(os.environ, GOFLAGS='-mod=mod', GOPROXY='off', GOSUMDB='off', GOTOOLCHAIN='local'); env.pop('GOWORK', None)
+        subprocess.check_call(['git', '-C', '/repo', 'worktree', 'add', '-q', '--detach', scratch, 'HEAD'])
+        try:
+            rv = subprocess.run(['git', '-C', scratch, 'revert', '--no-commit', '-X', 'theirs', h], capture_output=True, text=True)
+            b = subprocess.run(['go', 'build', './...'], cwd=scratch, env=env, capture_output=True, text=True)
+            patch = subprocess.check_output(['git', '-C', scratch, 'diff', 'HEAD'], text=True)
+            if rv.returncode != 0 or b.returncode != 0 or not patch.strip():
+                print('skip (no longer applies):', subj)
+                continue
+            print('reverted with conflict resolution:', subj)
+        finally:
+            subprocess.call(['git', '-C', '/repo', 'worktree', 'remove', '--force', scratch])
     d = os.path.join(out, 'revert-' + slug)
     os.makedirs(d)
     open(os.path.join(d, 'patch.diff'), 'w').write(patch)
-    props = [x[0] for x in notes.get(subj, [])]
+    # a fix whose defect no rule decides (recorded as such) is not expected to be reported when reverted
+    props = [x[0] for x in notes.get(subj, []) if 'no rule decides it' not in x[1]]
     rules = sorted(set(re.findall(r'\(([A-Z][0-9]+[a-z]?(?:, [A-Z][0-9]+[a-z]?)*)\)', ' '.join(x[1] for x in notes.get(subj, [])))))
     rl = sorted(set(r.strip() for g in rules for r in g.split(',')))
     json.dump({'kind': 'revert of a fix: commit', 'subject': subj, 'properties': props, 'rules': rl}, open(os.path.join(d, 'expect.json'), 'w'), indent=1)
